@@ -171,7 +171,12 @@ static int parse_set(AsmContext *asm_context)
 #endif
 
   // REVIEW - should num be divided by bytes_per_address for dsPIC and avr8?
-  asm_context->symbols.set(name, num);
+  if (asm_context->symbols.set(name, num) != 0)
+  {
+    // The name is already a label, which cannot be changed.
+    print_already_defined(asm_context, name);
+    return -1;
+  }
 
   //asm_context->tokens.line++;
 
